@@ -3705,6 +3705,9 @@ static Token *function(Token *tok, Type *basety, VarAttr *attr) {
   if (consume(&tok, tok, ";"))
     return tok;
 
+  if (current_fn)
+    error_tok(tok, "nested function definitions are not supported");
+
   current_fn = fn;
   locals = NULL;
   enter_scope();
